@@ -8,4 +8,5 @@ CONSTANTS
   MaxPrec = 2147483647
   WS = 8
   DWg = 19
+  KW = 19
 CHECK_DEADLOCK FALSE
